@@ -26,7 +26,8 @@ From CJ Require Import Base Dbl Heap Forest ForestLemmas CoreSpec CoreDefs CoreR
   CoreRefineByKey CoreRefineAddObject CoreRefineHistoryObj CoreRefineHistoryObjEx CoreRefineReplaceKey
   CoreRefineReplaceKeyAbs CoreRefineCreate CoreRefineSet CoreRefineRef CoreRefineArray CoreRefineLinks
   CoreLedgerGen CoreHistoryAllSteps CoreHistoryAllArr CoreHistoryAllArrStep CoreHistoryAll CoreHistoryAllQ
-  CoreHistoryAllRefuse CoreHistoryAllEx.
+  CoreHistoryAllRefuse CoreHistoryAllEx CoreRefineDupBase CoreRefineDupTree CoreRefineDupNode CoreRefineDupForest
+  CoreLedgerAll CoreLedgerDup CoreHistoryAllIter.
 From CJ.gen Require Import Constants.
 From Coq Require Import Floats.SpecFloat.
 From stdpp Require Import gmap.
@@ -437,6 +438,16 @@ Theorem C06_queries_case_insensitive : forall strs name cs x,
     forall (j : nat) c', (j < k)%nat -> cs !! j = Some c' -> ~ folded_match strs name c'.
 Proof. exact find_key_ci_first. Qed.
 Print Assumptions C06_queries_case_insensitive.
+(** iteration (cJSON_ArrayForEach: child, then next until NULL) visits exactly the children list, in order *)
+Theorem C06_queries_iteration : forall h F p d cs,
+  WF h F -> find_tree p F = Some (T p d cs) -> is_ref d = false ->
+  CoreOps.array_for_each (Some p) h = Ret ((fun c => rd_type (tdata c)) <$> cs, h).
+Proof. exact array_for_each_sim. Qed.
+Print Assumptions C06_queries_iteration.
+Theorem C06_queries_iteration_ids : forall h F p d cs (k : nat) c,
+  WF h F -> find_tree p F = Some (T p d cs) -> (tid <$> cs) !! k = Some c ->
+  get_next (Some c) h = Ret ((tid <$> cs) !! S k, h).
+Proof. exact array_for_each_ids. Qed.
 (** value queries *)
 Theorem C06_queries_string_value : forall S item,
   node_or_null S item -> Step (cJSON_GetStringValue item) S S (spec_get_string_value S item).
@@ -451,7 +462,7 @@ Proof. exact Step_GetNumberValue. Qed.
     children [ks], in this order: iteration (cJSON_ArrayForEach: child, then next until NULL)
     visits exactly [ks] in order. *)
 Theorem C06_reached_states_are_wf : forall h S, Abs3 h S -> WF h (a_forest S).
-Proof. exact (fun h S HA => proj1 (proj1 (proj1 HA))). Qed.
+Proof. exact Abs3_WF. Qed.
 
 (** detached items and document roots have no sibling links *)
 Theorem C06_links_root : forall h F, WF h F -> forall x, x ∈ roots F -> h_lnk h !! x = Some (None, None).
@@ -480,6 +491,13 @@ Proof. exact links_head_prev. Qed.
 Theorem C06_links_nodup : forall h F, WF h F -> forall p d (ks : list positive), (p, d, ks) ∈ flat F -> NoDup ks.
 Proof. exact links_nodup. Qed.
 Print Assumptions C06_links_head_prev.
+(** a DUPLICATED item has no sibling links (the copy theorem itself is C11) *)
+Theorem C06_links_duplicated : forall h S p t,
+  Abs3 h S -> find_tree p (a_forest S) = Some t ->
+  vals_readable S t -> no_borrowed t -> (height t <= Z.to_nat c_CJSON_CIRCULAR_LIMIT)%nat ->
+  exists tc h', cJSON_Duplicate nv (Some p) true h = Ret (Some (tid tc), h') /\ h_lnk h' !! tid tc = Some (None, None).
+Proof. exact dup_root_no_links. Qed.
+Print Assumptions C06_links_duplicated.
 
 (** ------------------------------------------------------------------ 6. non-vacuity *)
 
